@@ -1458,6 +1458,60 @@ Proof.
   rewrite stepwise_after_ramp by lra. lra.
 Qed.
 
+
+(* ---- whole life of a battery object: constructor, then any charge / reset calls ---- *)
+Inductive bop :=
+| OpCharge (o : cop)
+| OpReset (x : option R).
+
+Definition apply_bop (b : battery) (st : bstate) (o : bop) : bstate :=
+  match o with
+  | OpCharge c => r_state (charge_call b st c)
+  | OpReset x => reset_state b st x
+  end.
+
+(* states before every operation *)
+Fixpoint life (b : battery) (st : bstate) (ops : list bop) : list (bstate * bop) :=
+  match ops with
+  | [] => []
+  | o :: rest => (st, o) :: life b (apply_bop b st o) rest
+  end.
+
+Definition bop_pilot_ok (o : bop) : Prop :=
+  match o with OpCharge c => 0 <= o_pilot c | OpReset _ => True end.
+
+Lemma reset_state_le b st x : b_init b <= b_cap b -> s_charge st <= b_cap b ->
+  s_charge (reset_state b st x) <= b_cap b.
+Proof. intros Hi Hc. unfold reset_state. cbn. apply Battery_reset_invariant; assumption. Qed.
+
+(* a constructed battery (init <= capacity) never leaves [.., capacity], whatever is done to it with
+   non-negative pilots; every charge call on the way is call_ok *)
+Lemma c03_life b ops : battery_ok b -> b_init b <= b_cap b -> Forall bop_pilot_ok ops ->
+  Forall (fun '(st, o) =>
+            s_charge st <= b_cap b /\
+            match o with
+            | OpCharge c => call_ok b st c (charge_call b st c)
+            | OpReset x => s_charge (reset_state b st x) <= b_cap b
+            end) (life b (initial_state b) ops).
+Proof.
+  intros Hb Hi Hops.
+  assert (H0 : s_charge (initial_state b) <= b_cap b) by (cbn; exact Hi).
+  revert H0. generalize (initial_state b) as st.
+  induction Hops as [|o rest Ho _ IH]; intros st Hst; [constructor|].
+  cbn [life]. destruct o as [c|x]; cbn in Ho.
+  - destruct (c03_call b st c Hb Hst Ho) as (Hok & _).
+    constructor; [split; assumption|].
+    apply IH. cbn. apply (call_ok_invariant _ _ _ _ Hok Hst).
+  - pose proof (reset_state_le b st x Hi Hst) as Hr.
+    constructor; [split; assumption|]. apply IH. exact Hr.
+Qed.
+
+(* EV.reset: energy delivered back to 0 and the battery is reset() *)
+Lemma ev_reset_spec :
+  EV_reset = {| EV_reset_ret := tt; EV_reset__energy_delivered := 0;
+                EV_reset_effects := [("self._battery.reset"%string, [])] |}.
+Proof. reflexivity. Qed.
+
 (* ---- packaged statements for Props/C03.v ---- *)
 Lemma Battery_charge_rejects cap c p0 maxP pilot V T : V <= 0 \/ T <= 0 ->
   Battery_charge cap c p0 maxP pilot V T =
